@@ -323,7 +323,7 @@ class Seq(Counting):
 # not streaming even when presorted: pivot (collects its columns first), groupselectmin/max (sort by value by definition);
 # diff of two shifted sequences has its first row at the very end of the input
 PRESORTED = [n for n, e in catalog.ENTRIES.items() if e.has("presorted")
-             and n not in ("pivot", "groupselectmin", "groupselectmax", "diff0", "diff1")]
+             and n not in ("pivot", "groupselectmin", "groupselectmax", "diff0", "diff1", "unjoin_left", "unjoin_right")]
 
 
 def presorted_cases(tier):
